@@ -18,6 +18,7 @@ import Ivg.Gen.Tie.Code.Encoder4
 import Ivg.Gen.Tie.Code.Encoder5
 import Ivg.Gen.Tie.Code.Encoder6
 import Ivg.Gen.Tie.Code.Decoder8
+import Ivg.Gen.Tie.Code.Encoder7
 import Ivg.Obligations
 /-!
 # C01 — encode then decode reproduces the drawing program
@@ -348,4 +349,5 @@ end Ivg.Props.C01
   Ivg.Gen.Tie.wfEnc_step,
   Ivg.Gen.Tie.wfEnc_runOps,
   -- regenerated code (translator) = model, for all inputs: the decoder from bytes to Destination calls (Tie/Code/Decoder*.lean)
-  Ivg.Gen.Tie.decode_Decode_code_tie]
+  Ivg.Gen.Tie.decode_Decode_code_tie,
+  Ivg.Gen.Tie.scratch_readback, Ivg.Gen.Tie.setNReg_code_tie, Ivg.Gen.Tie.setNReg_code_tie_state]
